@@ -312,3 +312,8 @@ for tier in ('quick', 'thorough'):
     PROPS['C04']['mir'][tier][0]['scenarios'] += ['iter.fold', 'iter.rfold']
 PROPS['C06']['mir']['quick'].append(mrun(['iter.fold', 'iter.rfold'], nmax=3))
 PROPS['C04']['functions'] += ['GenericArrayIter::{fold,rfold}']
+
+PROPS['C18']['mir']['quick'][0]['scenarios'] += ['const_transmute', 'const_transmute.ctfe']
+PROPS['C11']['mir'] = {'quick': [mrun(['const_transmute'])]}
+PROPS['C11']['technique'] = 'bounded model checking with Kani/CBMC on concrete (T,N,M) instantiations (row-major index law, address identity, write-through, drop accounting) + symbolic execution of rustc MIR for const_transmute\'s size guard (all sizes)'
+PROPS['C11']['bounds'] += ' M: const_transmute (the owned flatten/unflatten) reaches the union read iff the two sizes are equal, for all sizes; otherwise panics and drops its argument once.'
